@@ -222,14 +222,29 @@ class Facts:
             raise Undecided("anchor lost: no MIR body for %s" % def_path)
         if len(bs) > 1:
             raise Undecided("ambiguous anchor: %d bodies named %s" % (len(bs), def_path))
-        return Body(bs[0], self)
+        if not hasattr(self, "_body_cache"):
+            self._body_cache = {}
+        if def_path not in self._body_cache:
+            self._body_cache[def_path] = Body(bs[0], self)
+        return self._body_cache[def_path]
 
     def has_body(self, def_path):
         return def_path in self.bodies
 
     def all_bodies(self):
-        for bs in self.data["bodies"]:
-            yield Body(bs, self)
+        if not hasattr(self, "_all_bodies"):
+            if not hasattr(self, "_body_cache"):
+                self._body_cache = {}
+            out = []
+            for raw in self.data["bodies"]:
+                if len(self.bodies.get(raw["def"], [])) == 1:
+                    if raw["def"] not in self._body_cache:
+                        self._body_cache[raw["def"]] = Body(raw, self)
+                    out.append(self._body_cache[raw["def"]])
+                else:
+                    out.append(Body(raw, self))
+            self._all_bodies = out
+        return iter(self._all_bodies)
 
     def fn(self, def_path):
         fs = self.fns.get(def_path)
